@@ -6,13 +6,14 @@ set -u
 d=$1; shift
 export GOFLAGS=-mod=mod GOPROXY=off GOSUMDB=off GOTOOLCHAIN=local
 pkgdir=$(grep -o 'teamserver/[a-zA-Z0-9_/]*' "$d/demo_test.go" | head -1)
+pat="^($(grep -o '^func Test[A-Za-z0-9_]*' "$d/demo_test.go" | sed 's/^func //' | paste -sd'|'))\$"
 w=$(mktemp -d /tmp/hvseed.XXXXXX)
 git -C /repo worktree add -q --detach "$w" HEAD
 cp "$d/demo_test.go" "$w/$pkgdir/zz_seed_demo_test.go"
-( cd "$w/$pkgdir" && go test -vet=off -count=1 . >/tmp/seed_clean.txt 2>&1 ); clean=$?
+( cd "$w/$pkgdir" && go test -vet=off -count=1 -run "$pat" . >/tmp/seed_clean.txt 2>&1 ); clean=$?
 ( cd "$w" && git apply "$d/patch.diff" ) || echo "PATCH DOES NOT APPLY"
 ( cd "$w/teamserver" && go build ./... ) || echo "PATCHED TREE DOES NOT BUILD"
-( cd "$w/$pkgdir" && go test -vet=off -count=1 . >/tmp/seed_patched.txt 2>&1 ); patched=$?
+( cd "$w/$pkgdir" && go test -vet=off -count=1 -run "$pat" . >/tmp/seed_patched.txt 2>&1 ); patched=$?
 git -C /repo worktree remove --force "$w"; rm -rf "$w"
 echo "demo: clean exit=$clean patched exit=$patched (want 0 / non-zero)"
 git -C /repo apply "$d/patch.diff" || { echo "cannot apply to /repo"; exit 2; }
